@@ -16,16 +16,20 @@ ID = "C14"
 ISAS = isa_pkg.load()
 NAMES = sorted(ISAS)
 
-RULE = ("case = one program for one CPU (" + ", ".join(NAMES) + "): 100-250 instructions, each `ORG slot` + one "
-        "instruction drawn from the reference form table (mnemonic x addressing mode x register); operands at 0, "
-        "the field limits, limits +-1 and random interior values, literals in decimal and in the target's default "
-        "hex syntax; PC-relative targets given as number, backward label or forward label placed by ORG at an exact "
-        "distance in a band around both displacement limits.  mode ok: all operands encodable -> code-file bytes at "
-        "the slot == reference encoding, relative field decoded back to the target; mode rej / rejfwd: exactly one "
-        "operand beyond its limit -> error on that line, no code in the listing line, no code file.  An instruction "
-        "case is non-trivial when an operand is at a limit or limit+-1 or a branch is within 2 of a displacement "
-        "limit; distinct = (cpu, form, operand, class) (reported as distinct_item_nontrivial); the batch key is the "
-        "set of its items' keys.  Every form of every table is visited by fixed_cases (forms_covered == forms_total).")
+RULE = ("case = one program for one CPU (" + ", ".join(NAMES) + "): 100-250 instructions (MSP430: 100-150), each "
+        "`ORG slot` + one instruction drawn from the reference form table (mnemonic x addressing mode x register), at "
+        "varying start offsets inside the slot; operands at 0, the field limits, limits +-1, constant-generator values "
+        "and random interior values, written as decimal or default-syntax hex literal or through a symbol EQU'd "
+        "before; PC-relative targets given as number, PC expression (*+n / $+n), backward label or forward label "
+        "placed by ORG at an exact distance in a band around both displacement limits.  mode ok: all operands "
+        "encodable -> code-file bytes at the slot == reference encoding (bits the manufacturer marks don't-care "
+        "masked), relative field decoded back to the target; mode rej / rejfwd: exactly one operand beyond its limit "
+        "(+1, +2, far, valid value + 2^16/2^32) -> error on that line, empty code field in the listing line, status "
+        "!= 0.  An instruction case is non-trivial when an operand is at a limit, limit+-1 or a special value, or a "
+        "branch is within 2 of a displacement limit; distinct = (cpu, form, operand, class), reported as "
+        "distinct_item_nontrivial; the batch key is the set of its items' keys.  fixed_cases visit every form of every "
+        "table with every boundary value and every register (forms_covered == forms_total), the page-end positions of "
+        "the 4004 and both ends of the AVR's 4K program memory.")
 
 ASSUMPTIONS = [
     "reference tables written from the manufacturers' instruction-set definitions (MOS MCS6500 / R65C02 opcode "
@@ -40,6 +44,25 @@ ASSUMPTIONS = [
     "undocumented opcodes, CPU-variant extensions and assembler-specific synonyms are not generated",
     "word-addressed targets (PIC, AVR): code-file words are little endian (doc/file-formats.md: multi-byte values "
     "are stored little endian)",
+    "6502 (NMOS): JMP ($xxFF) is not generated (asl refuses it because of the page-wrap bug of the NMOS part); it "
+    "is generated for 65C02 and W65C02S, whose data sheets define it",
+    "4004/4040: JCN and ISZ take their 8-bit address in the ROM page of the following instruction (MCS-4 manual: "
+    "located at words 254/255 they branch into the next page); register pairs are written RnRm as the manual "
+    "documents, JCN conditions as 4-bit numbers",
+    "PIC16C84: file-register operands are generated as the 7-bit field value 0..127 only (larger data addresses "
+    "carry bank bits, asl masks them); CALL/GOTO targets 0..$3FF (program memory of the device) are valid, "
+    "$400..$7FF are not generated, >= $800 (beyond the 11-bit field) must be rejected; OPTION/TRIS (obsolete) are "
+    "not generated; omitted destination = the default documented in processor-specific-hints.md",
+    "MSP430: not generated: R3 as explicit register (asl rejects it), PC/SR/R3 as base of indexed/indirect "
+    "operands, a zero index in a source operand (asl shortens 0(Rn) to @Rn), byte immediates of 255, "
+    "PUSH/CALL/BR immediates a constant generator could produce, @Rn as destination; for byte operations the high "
+    "byte of an immediate extension word is not compared; word immediate 65535 is the constant -1; symbolic mode "
+    "reaches every address modulo 64K (SLAU049), so it has no rejectable distance; `rlc @Rn+` = `addc @Rn+,-2(Rn)` "
+    "as documented in processor-specific-hints.md",
+    "AVR: AT90S8515 instruction list (118 instructions, no MUL/JMP/CALL/MOVW/extended LPM); WRAPMODE stays off, so "
+    "RJMP/RCALL beyond +-2K words must be rejected; targets outside the 4K-word program memory are not generated",
+    "Z80: RST operands are the restart addresses 0,8,..,38h (Zilog notation); undocumented SLL and IX/IY halves "
+    "are not generated",
     "rejection = at least one error diagnostic on the instruction's line, status != 0 and an empty code field in the "
     "listing line (the code file is not written when errors occurred)",
 ]
@@ -48,7 +71,10 @@ MAXITEMS = 250
 
 
 def budget(tier):
-    return dict(examples=2400 if tier == "quick" else 48000, shards=16)
+    # development aid only (never set by the registered commands): VERIF_C14_EXAMPLES=<n>
+    import os
+    n = os.environ.get("VERIF_C14_EXAMPLES")
+    return dict(examples=int(n) if n else (1200 if tier == "quick" else 36000), shards=16)
 
 
 # ---------------------------------------------------------------- generation
@@ -76,7 +102,12 @@ def strategy_(d, tier):
     if mode == "rej" and not REJ_FORMS[name]:
         mode = "ok"
     pool = {"ok": None, "rej": REJ_FORMS[name], "rejfwd": REL_FORMS[name]}[mode]
-    n = d.int(min(100, I.maxitems), I.maxitems)
+    # 100..maxitems instructions; the rare small branch (first in shrink order) lets the shrinker cut a
+    # failing batch down to the single failing instruction
+    if d.int(0, 999) < 40:
+        n = d.int(1, I.maxitems)
+    else:
+        n = d.int(min(100, I.maxitems), I.maxitems)
     items = []
     for _ in range(n):
         fi = d.int(0, len(I.forms) - 1) if pool is None else d.choice(pool)
@@ -88,7 +119,7 @@ def strategy_(d, tier):
         elif mode == "rejfwd":
             bad = [i for i, o in enumerate(f.ops) if o.kind == "rel" and o.boundary_rej()][0]
             vals[bad] = f.ops[bad].draw_rej(d)
-        sty = d.int(0, 255)
+        sty = d.int(0, 511)
         off = d.choice(I.offsets) if len(I.offsets) > 1 else I.offsets[0]
         items.append([fi, vals, sty, off])
     return dict(isa=name, mode=mode, items=items)
@@ -151,9 +182,9 @@ def fixed_cases(tier):
             for j in range(max(n, 1)):
                 vals = [b[j % len(b)] for b in bounds]
                 # style: cycle hex/dec and number / backward / forward label
-                sty = (j * 37 + fi * 5) % 256
+                sty = (j * 37 + fi * 5) % 256 | ((j + fi) & 1) << 8
                 if any(o.kind == "rel" for o in f.ops):
-                    sty = (sty & 15) | ((j % 3) << 4)
+                    sty = (sty & 0xcf) | ((j % 4) << 4)
                 okitems.append([fi, vals, sty, I.offsets[(j + fi) % len(I.offsets)]])
                 if I.page_end and any(o.kind == "rel" for o in f.ops):
                     edgeitems.append([fi, vals, sty, None])
@@ -169,21 +200,16 @@ def fixed_cases(tier):
         out += _chunks(name, "ok", okitems) + _chunks(name, "rej", rejitems) + _chunks(name, "rejfwd", fwditems)
         out += _edge_chunks(I, "ok", edgeitems) + _edge_chunks(I, "rej", edgerej)
         if I.straddle:
+            # program memory is just as large as the reach of the long relative forms: visit their limits
+            # once from the first and once from the last slots of a batch
             for mode, lst in (("ok", okitems), ("rej", rejitems), ("rejfwd", fwditems)):
                 rel = [it for it in lst if any(o.kind == "rel" and o.hi - o.lo > 1000 for o in I.forms[it[0]].ops)]
-                if not rel:
-                    continue
-                m2 = "rej" if mode == "rejfwd" else mode
                 for k in range(0, len(rel), 60):
                     part = rel[k:k + 60]
-                    fill = [[FILLER[name][m2], FILLER_VALS[name][m2], 0, 0]] * (MAXITEMS - 2 * len(part))
-                    if mode == "rejfwd":
-                        fill = []
-                        part = part + [list(p) for p in part]
-                        # forward-only batch: first half early, second half late is not possible without
-                        # filler that is itself a forward reject; use the relative forms themselves
+                    if mode == "rejfwd":        # every item of such a batch must be a forward reject
                         out.append(dict(isa=name, mode=mode, items=part))
                         continue
+                    fill = [[FILLER[name][mode], FILLER_VALS[name][mode], 0, 0]] * (MAXITEMS - 2 * len(part))
                     out.append(dict(isa=name, mode=mode, items=part + fill + [list(p) for p in part]))
     return out
 
@@ -222,7 +248,11 @@ def build_program(case):
                     st = 2
                 elif mode == "rej" and st == 2:
                     st = 1      # errors in pass 1 would suppress pass 2: only known targets here
-                if st in (1, 2):
+                if st == 3 and I.pcsym and mode != "rejfwd":
+                    # the target written relative to the program-counter symbol of the target's syntax
+                    texts.append("%s%+d" % (I.pcsym, tgt - pc))
+                    info["pcexpr"] = True
+                elif st in (1, 2):
                     lab = "T%d_%d" % (idx, oi)
                     (pre if st == 1 else post).extend(["\torg\t" + lit(I, tgt, True), lab + ":"])
                     texts.append(lab)
@@ -239,6 +269,11 @@ def build_program(case):
         if info["cls"] == "excl":
             continue
         info["text"] = f.fmt.format(*texts)
+        if f.note == "W" and (sty >> 8) & 1:
+            # TI: the suffix .W is the explicit spelling of the default operand size
+            m, _, rest = info["text"].partition(" ")
+            info["text"] = m + ".W " + rest
+            info["wsuffix"] = True
         body.append(("\torg\t" + lit(I, pc, True), None))
         body.append(("\t" + info["text"], info))
     lines = head + pre
@@ -279,7 +314,8 @@ def execute(case):
     classes = []
     ntkeys = set()
     for i in live:
-        classes.append("f:%s:%d" % (I.name, i["fi"]))
+        # forms_covered counts forms whose encoding was compared (mode ok); rejections are counted apart
+        classes.append("%s:%s:%d" % ("f" if mode == "ok" else "r", I.name, i["fi"]))
         k = item_key(I, i)
         if k:
             ntkeys.add(k)
@@ -287,6 +323,8 @@ def execute(case):
     agg = ["isa:" + I.name] * len(live) + ["mode:" + mode] * len(live) + ["items"] * len(live)
     agg += ["items-nontrivial"] * sum(1 for i in live if item_key(I, i))
     agg += ["items-operand-via-symbol"] * sum(1 for i in live if i.get("symbolic"))
+    agg += ["items-rel-as-pc-expression"] * sum(1 for i in live if i.get("pcexpr"))
+    agg += ["items-explicit-.W"] * sum(1 for i in live if i.get("wsuffix"))
     agg += ["items-with-rel"] * sum(1 for i in live if i["target"] is not None)
     agg += ["excluded-by-classify"] * nexcl
     classes += agg + ["batch:" + I.name + ":" + mode]
@@ -352,8 +390,7 @@ def execute(case):
                                   % (I.name, describe(i), got.hex(" ") or "nothing", exp.hex(" ")),
                                   key, classes, text=i["text"], form=f.name, got=got.hex(), expected=exp.hex(),
                                   **detail)
-            if f.rel is not None:
-                oi, dec = f.rel
+            for oi, dec in ([f.rel] if isinstance(f.rel, tuple) else (f.rel or [])):
                 o = f.ops[oi]
                 back = o.target(dec(got), i["pc"])
                 if back != i["targets"][oi]:
@@ -408,12 +445,52 @@ def coverage_extra(tier, classes):
         cov += c
     out["forms_total"] = tot
     out["forms_covered"] = cov
+    out["forms_with_rejectable_operand"] = sum(len(v) for v in REJ_FORMS.values())
+    out["forms_rejection_covered"] = sum(1 for n in ISAS for fi in REJ_FORMS[n] if classes.get("r:%s:%d" % (n, fi)))
     out["per_isa"] = per
     out["instruction_cases"] = classes.get("items", 0)
     out["distinct_item_nontrivial"] = sum(1 for k in classes if k.startswith("nt:"))
-    out["classes"] = dict(sorted(((k, v) for k, v in classes.items() if not k.startswith(("f:", "nt:"))),
+    try:
+        from vf.isa import selftest
+        out["golden_crosscheck"] = {n: {k: v for k, v in r.items() if k != "first_mismatches"}
+                                    for n, r in selftest.summary().items()}
+    except BaseException as e:      # the cross-check is a development aid, never part of the verdict
+        out["golden_crosscheck"] = "not run: %s" % (e,)
+    out["classes"] = dict(sorted(((k, v) for k, v in classes.items() if not k.startswith(("f:", "r:", "nt:"))),
                                  key=lambda kv: -kv[1])[:60])
     return out
 
 
-KNOWN = {}
+# ---------------------------------------------------------------- known findings
+# All six defects found by this check are repaired on branch agent/C14 (see proposed/C14/*.md).  The
+# predicates below are only consulted when the finding id is listed in KNOWN_FINDINGS.txt, i.e. if a
+# repair is not taken over; each names the CPU, the form and the symptom so that any other violation
+# is still reported.
+
+def _k(isas, forms, symptom, extra=None):
+    def pred(case, out):
+        d = out.detail or {}
+        if d.get("isa") not in isas:
+            return False
+        if forms is not None and not any(d.get("form", "").startswith(f) for f in forms):
+            return False
+        if symptom not in out.why:
+            return False
+        return extra(case, out) if extra else True
+    return pred
+
+
+KNOWN = {
+    "4004-isz-page": ("4004/4040 ISZ compares its target with the page of PC+1 instead of PC+2",
+                      _k(("4004", "4040"), ("ISZ r,a",), "ISZ r,a")),
+    "4004-jcn-forward-page": ("4004/4040 JCN at words 254/255 of a page rejects a forward label in pass 1",
+                              _k(("4004", "4040"), ("JCN c,a",), "legal instruction rejected")),
+    "msp430-error-but-code-emitted": ("MSP430 operand that fails to decode is reported and still encoded (word xFFx)",
+                                      _k(("MSP430",), None, "error reported but code emitted")),
+    "msp430-rla-abs0": ("MSP430 RLA/RLC &0 assemble to ADD/ADDC #4,&0",
+                        _k(("MSP430",), ("RLA &abs", "RLA.B &abs", "RLC &abs", "RLC.B &abs"), "instruction set prescribes")),
+    "msp430-rla-symbolic-distance": ("MSP430 RLA/RLC label rejected when the adjusted displacement changes sign",
+                                     _k(("MSP430",), ("RLA sym", "RLA.B sym", "RLC sym", "RLC.B sym"), "distance too big")),
+    "w65c02s-jmp-indirect-pageend": ("JMP ($xxFF) rejected for CPU W65C02S / 65SC02",
+                                     _k(("W65C02S", "65SC02"), ("JMP (abs)",), "legal instruction rejected")),
+}
